@@ -29,9 +29,9 @@ static void run_config(const char *name, int K, int cmpstate) {
       if (mask & (1u << b)) base.insert(2 * b + 1);
     for (int hint = 0; hint <= static_cast<int>(base.size()); ++hint)
       for (int v = 0; v <= 2 * K; ++v)
-        for (int form = 0; form < 3; ++form) {
+        for (int form = 0; form < 4; ++form) {
           char key[160];
-          snprintf(key, sizeof key, "%s state=%d mask=%u hint=%d value=%d form=%s", name, cmpstate, mask, hint, v, form == 0 ? "insert(hint,const&)" : form == 1 ? "insert(hint,&&)" : "emplace_hint");
+          snprintf(key, sizeof key, "%s state=%d mask=%u hint=%d value=%d form=%s", name, cmpstate, mask, hint, v, form == 0 ? "insert(hint,const&)" : form == 1 ? "insert(hint,&&)" : form == 2 ? "emplace_hint" : "emplace_hint(element&&)");
           if (!enum_begin(key)) continue;
           ledgers_reset();
           aledger_reset();
@@ -61,8 +61,10 @@ static void run_config(const char *name, int K, int cmpstate) {
                 r = s.insert(s.begin() + hint, ref);
               } else if (form == 1)
                 r = s.insert(s.begin() + hint, std::move(tmp));
-              else
+              else if (form == 2)
                 r = s.emplace_hint(s.begin() + hint, v);
+              else
+                r = s.emplace_hint(s.begin() + hint, std::move(tmp));
               plain.emplace(v);
             } catch (const std::exception &e) {
               violation(P12, "exception %s", e.what());
